@@ -2543,6 +2543,11 @@ func (r *RIB) Flush(networkInstances []string) error {
 		}
 
 		for _, id := range backupNHGs {
+			// The backup NHG may not exist in this network instance, or may
+			// already have been removed because several NHGs share it.
+			if _, ok := niR.r.Afts.NextHopGroup[id]; !ok {
+				continue
+			}
 			delNHG(id)
 		}
 
